@@ -23,10 +23,15 @@ def build_pool(rng, n_each=1):
     for m, pre in (("aidon", "Aidon"), ("kaifa_values", "Kaifa"), ("kaifa_obis", "Kaifa"), ("kamstrup", "Kamstrup")):
         for _ in range(n_each):
             desc = L.GEN[m](rng)
+            # the own-decoder theorems for Kamstrup lists (own_kamstrup_frame_fresh / own_kamstrup_body_fresh) require a
+            # structure length octet >= 2; with 0 or 1 the Kaifa decoders, which come first, take the list for one of theirs
+            # (proved necessary by checked witnesses in Props/C12More.lean, C12OwnBody.lean). Such messages stay in the pool,
+            # without an own-decoder claim.
+            in_domain = not (m == "kamstrup" and int(desc.split(",")[0]) < 2)
             reqs.append(f"list.enc {m} {L.gen_header(rng, clock=rng.choice(['T', 'U']))} {desc}")
-            owners.append(pre + "_frame")
+            owners.append(pre + "_frame" if in_domain else None)
             reqs.append(f"list.enc {m} - {desc}")
-            owners.append(pre + "_notification_body")
+            owners.append(pre + "_notification_body" if in_domain else None)
     for rq, own, a in zip(reqs, owners, lib.drive(reqs)):
         wire, model, spec, wf = L.parse_answer(a)
         if wf and model.startswith("{"):
